@@ -130,7 +130,7 @@ pub fn meta(prop: Prop) -> Meta {
         Prop::C02 => Meta {
             level: "fault_enumeration",
             rule: "one evaluation = one simulated TLS byte stream (1..10 records, all content types, boundary-biased declared lengths incl. the 16640/16641 cap, length lies, trailing garbage, hostile bit/byte faults) delivered to the monitor by a seeded segmentation schedule; at EVERY delivery event the real parse_tls_raw_record / parse_tls_encrypted / parse_tls_plaintext / parse_tls_record_header are applied to the receive buffer and compared with the 5-byte reference framer, and a Needed-driven reader must emit every complete record; under the seg-dribble and boundary-dribble schedules every cut point 0..=5+len of every record in the stream is enumerated; distinct = distinct 64-bit fingerprints of the abstract trace (per framing attempt: content type x outcome classes x buffer size class); non-trivial = at least 2 records or 2 delivery events or a fault fired",
-            fault_kinds: &["seg-dribble", "trailing-inflight", "eof", "length-lie", "garbage-inject", "bitflip", "byte-drop", "byte-insert", "malformed-first", "malformed-tail", "coalesce"],
+            fault_kinds: &["seg-dribble", "trailing-inflight", "eof", "length-lie", "garbage-inject", "bitflip", "byte-drop", "byte-insert", "malformed-first", "malformed-tail", "coalesce", "many-small-records"],
             cell_spaces: vec![("cut", None)],
             real: &["parse_tls_raw_record", "parse_tls_encrypted", "parse_tls_plaintext", "parse_tls_record_header", "Debug of returned records"],
             stub: &["peer message generator", "reference RFC encoder", "record layer", "TCP-like pipe with seeded segmentation / EOF / corruption", "reference 5-byte framer", "Needed-driven reader"],
@@ -155,9 +155,9 @@ pub fn meta(prop: Prop) -> Meta {
         Prop::C08 => Meta {
             level: "exploration",
             rule: "one evaluation = one simulated two-party conversation at message level: the peers follow a seeded walk through the documented flow grammar, the fault layer perturbs the message history (drop, duplicate, reorder, cross-direction skew at the tap through per-direction latency on the simulated clock, direction flip, injection of any message kind, alert and HelloRequest injection, mid-stream pickup in any of the 25 states), and the passive monitor feeds every message (constructed values, or in the integrated batch values produced by the real parser from the wire) to the real tls_state_transition; each step is compared with the reference flow acceptor derived from the declarative grammar; distinct = distinct abstract traces (sequence of (state, direction, token, result) steps); non-trivial = at least 2 steps or a fault fired",
-            fault_kinds: &["msg-drop", "msg-dup", "msg-reorder", "cross-direction-skew", "direction-flip", "msg-inject", "alert-inject", "hello-request-inject", "midstream-pickup"],
+            fault_kinds: &["msg-drop", "msg-dup", "msg-reorder", "cross-direction-skew", "direction-flip", "msg-inject", "alert-inject", "hello-request-inject", "midstream-pickup", "record-fragmentation"],
             cell_spaces: vec![("transition", Some((0..1150).collect()))],
-            real: &["tls_state_transition", "parse_tls_plaintext (integrated batch)"],
+            real: &["tls_state_transition", "integrated batch (1/3 of runs): parse_tls_raw_record -> per-direction TlsRecordsParser::parse_record (with seeded record-layer fragmentation) -> tls_state_transition, the composition the crate documentation prescribes"],
             stub: &["client / server peers (flow grammar walk)", "message-level fault layer", "per-direction latency / tap ordering on the simulated clock", "reference flow acceptor", "message constructors"],
             assumptions: &[
                 "the reference acceptor is a transcription of the documented flows and of the property statement (limited independence: not a second implementation by another author)",
@@ -180,7 +180,7 @@ pub fn meta(prop: Prop) -> Meta {
         Prop::C10 => Meta {
             level: "exploration",
             rule: "one evaluation = one simulated DTLS conversation: a sender stub emits flights of handshake messages (ClientHello with cookie, HelloVerifyRequest, ServerHello, Certificate, ServerHelloDone, ClientKeyExchange and, as fragments only, other kinds) with message_seq, fragmented to a per-run MTU (64..1500), packed into records and datagrams (several fragments per record, several records per datagram, CCS/alert records, epochs and 48-bit sequence numbers incl. boundaries) and retransmitted by timers on the simulated clock (1 s doubling to 60 s) with possible MTU change (overlapping fragments); the datagram network loses, duplicates, reorders and truncates; the monitor runs the real parsers on every delivered datagram; distinct = distinct abstract traces (per datagram/record: content type x outcome class x size class); non-trivial = at least 2 datagrams delivered or a fault fired",
-            fault_kinds: &["dgram-loss", "dgram-dup", "dgram-reorder", "dgram-truncate", "multi-record-datagram", "fragment", "zero-length-fragment", "overlapping-fragments", "delivered-unfragmented", "reassembled", "cap-sized-record"],
+            fault_kinds: &["dgram-loss", "dgram-dup", "dgram-reorder", "dgram-truncate", "multi-record-datagram", "fragment", "zero-length-fragment", "overlapping-fragments", "delivered-unfragmented", "reassembled", "cap-sized-record", "synthetic-fragment-header", "many-small-records"],
             cell_spaces: vec![("dframe", Some((0..16).collect())), ("dfrag", Some(vec![1, 3, 4, 5, 6, 7])), ("dmany", None)],
             real: &["parse_dtls_plaintext_records", "parse_dtls_plaintext_record", "parse_dtls_record_header", "parse_dtls_record_with_header", "parse_dtls_message_handshake", "DTLSMessage::is_fragment", "Debug of returned values"],
             stub: &["DTLS sender (flights, MTU fragmentation, retransmit timers)", "simulated clock / event queue", "datagram network (loss, dup, reorder, truncate)", "reference RFC encoder", "reference 13-byte framer", "harness reassembler (consumes only parser output)"],
@@ -193,7 +193,7 @@ pub fn meta(prop: Prop) -> Meta {
         Prop::C16 => Meta {
             level: "exploration",
             rule: "one evaluation = one simulated TLS byte stream (see C02) ; at every delivery event tls_parser_many is applied to the monitor's receive buffer (n complete records followed by nothing, a partial record, an oversize header or garbage) and compared with an explicit loop over parse_tls_plaintext (list, remainder by address, fails-iff-first-fails), and the deprecated tls_parser with parse_tls_plaintext as full results; DTLS datagram buffers are covered by the dgram world; distinct = distinct abstract traces; non-trivial = >= 2 records / events or a fault fired",
-            fault_kinds: &["seg-dribble", "trailing-inflight", "eof", "length-lie", "garbage-inject", "bitflip", "byte-drop", "byte-insert", "coalesce"],
+            fault_kinds: &["seg-dribble", "trailing-inflight", "eof", "length-lie", "garbage-inject", "bitflip", "byte-drop", "byte-insert", "coalesce", "many-small-records", "cap-sized-record", "multi-record-datagram", "dgram-truncate"],
             cell_spaces: vec![("many", Some(vec![0, 1, 2, 4, 5, 6, 8, 9, 10, 12, 13, 14])), ("dmany", Some(vec![0, 1, 2, 3, 4, 5, 6, 7, 8, 9, 10, 11]))],
             real: &["tls_parser_many", "tls_parser", "parse_tls_plaintext", "parse_dtls_plaintext_records", "parse_dtls_plaintext_record"],
             stub: &["peers, encoder, record layer, byte pipe / datagram net", "explicit single-record loop"],
